@@ -500,7 +500,14 @@ func c17KeyClass(k string) string {
 			return strings.TrimSuffix(strings.TrimSuffix(p, "/"), "/value")
 		}
 	}
-	return k // role slots: owner, pending-owner, ...
+	// role slots, named by what they are rather than by their bytes (a layout change must not rename a finding)
+	for name, key := range map[string][]byte{"owner": cctptypes.OwnerKey, "pending-owner": cctptypes.PendingOwnerKey, "attester-manager": cctptypes.AttesterManagerKey,
+		"pauser": cctptypes.PauserKey, "token-controller": cctptypes.TokenControllerKey} {
+		if k == string(key) {
+			return name
+		}
+	}
+	return k
 }
 
 func c17Replay(rp *Replay) int {
